@@ -6,6 +6,7 @@ PROPS = {
     "C04": dict(
         lean_modules=["PalomaModel.Props.C04"], gen=["Consts.lean"],
         harness_test="TestC04",
+        extra_tests=[{"test": "TestC04Keeper", "dir": "C04K", "n_quick": 300, "n_thorough": 2500}],
         n_quick=3000, n_thorough=40000, thorough_seeds=8,
         # ops whose model output is exactly what the property demands
         spec_ops=["median", "evidence", "gas", "addev"],
@@ -63,8 +64,9 @@ PROPS = {
     "C13": dict(
         lean_modules=["PalomaModel.Props.C13"],
         harness_test="TestBridge", env={"VERIF_PROP": "C13"},
+        extra_tests=[{"test": "TestC13Prune", "dir": "C13B", "n_quick": 400, "n_thorough": 4000}],
         n_quick=120, n_thorough=1500, thorough_seeds=8, timeout_quick=900,
-        spec_ops=["evidence"],
+        spec_ops=["evidence", "prune"],
         rule="bridge generator (see C01) with 22% evidence ops: a recorded checkpoint of any batch at any stage of its life (built, re-estimated, cancelled, executed) signed by a validator's real secp256k1 key "
              "is replayed by a third party as MsgSubmitBadSignatureEvidence — genuine (must be refused), forged timeout / forged estimate (jails the signer), or signed by an unregistered key (refused); "
              "distinct = distinct op text; non-trivial = at least one accepted op",
@@ -165,6 +167,38 @@ PROPS = {
              "re-submission of a used tx, evidence before estimate election; distinct = distinct op text; non-trivial = an attestation attempt reached the action attester",
         trusted_base=["Keccak-256 collision freeness is a pointwise hypothesis; RLP (de)serialisation of tx/receipt by go-ethereum is used as is on both sides", SDK_TRUST],
         assumptions=["VerifyAgainstTX reads only the call data (destination / chain id / sender of the remote tx are not part of the property)"],
+    ),
+    "C03": dict(
+        lean_modules=["PalomaModel.Props.C03"], gen=["Auth.lean"],
+        harness_test="TestC03",
+        n_quick=700, n_thorough=1500, thorough_seeds=6, timeout_quick=900,
+        spec_ops=[],
+        rule="full application; for every one of the 41 Msg RPCs (message zoo) and every identity-bearing field: signed by A for itself (B bystander); signed by A with creator = B without / with a fee grant B->A; creator A with one identity field pointed at B; "
+             "message built for B but creator/signer A; governance-only messages signed by a user (three variants) and delivered as executed proposal; forged metadata.signers; the monitor diffs every store entry attributed to the victim "
+             "(keyed by or mentioning its account / valoper / eth address, decoded queue records) minus what an empty block changes; distinct = distinct op text; all cases non-trivial",
+        trusted_base=[SDK_TRUST, "the extractor's reading of the msg-server handlers (Gen/Auth.lean, printed in evidence); SDK signature verification and feegrant lookups are used as they are"],
+        assumptions=["a fee grant is total delegation (the property says so); handlers classified `open` with a reason in Props/C03.lean: RemoveSmartContractDeployment, SetLegacyLightNodeClients (workflow state anyone may trigger)"],
+    ),
+    "C06": dict(
+        lean_modules=["PalomaModel.Props.C06"],
+        harness_test="TestC06",
+        n_quick=300, n_thorough=2500, thorough_seeds=6, timeout_quick=900,
+        spec_ops=[],
+        rule="full application with an active EVM chain: histories of enqueue, sign (valid, invalid, wrong key, duplicate validator / key, alias spellings of a key), gas-estimate submission and election, fee attachment by replace-put, "
+             "batch confirmations before and after estimate election, key re-registration and take-over of a released address; after EVERY op every stored SignData and batch confirm is re-verified with real secp256k1 against the item's current signing bytes; "
+             "distinct = distinct op text; non-trivial = at least one signature stored",
+        trusted_base=[SDK_TRUST, "ECDSA recover/verify soundness; signing bytes are abstract versions in the model (their concrete dependence on the fields is C05)"],
+        assumptions=["ReassignOrphanedMessages (keeps signatures while changing the relayer) has no caller in the repository (checked by the harness and by grep)"],
+    ),
+    "C14": dict(
+        lean_modules=["PalomaModel.Props.C14"],
+        harness_test="TestC14",
+        n_quick=300, n_thorough=2500, thorough_seeds=6, timeout_quick=900,
+        spec_ops=[],
+        rule="full application: snapshots, metrics, fee tables, trait sets and MEV requirement flags incl. score ties and missing records; queues mixing UpdateValset / SubmitLogicCall / UploadUserSmartContract with several senders (incl. empty), "
+             "assignees, estimate states, delivery / error reports; GetMessagesForRelaying of every validator vs the model's `offered`; fees vs an independent big-rational ceil; distinct = distinct op text; non-trivial = a message was assigned",
+        trusted_base=[SDK_TRUST, "relayer scores are modelled in exact LegacyDec arithmetic (banker's rounding, truncating division), validated by correspondence"],
+        assumptions=[],
     ),
 }
 
